@@ -16,7 +16,7 @@
    component verdicts, delivered iff not equivalent to the value the subscriber holds.  It does not go
    through the equator model.  JudgeProofs.judge_sound: agrees -> guard -> in_scope -> C16_ok. *)
 From Coq Require Import QArith Qabs Qminmax.
-From SC Require Import Base.Prelude Cmp.Cmp Cmp.Logic Cmp.Tolerance Cmp.FloatB64 Cmp.GoTime Cmp.Spec Resource.Impl Resource.Pull Cmp.CollEquiv.
+From SC Require Import Base.Prelude Cmp.Cmp Cmp.Logic Cmp.Tolerance Cmp.FloatB64 Cmp.GoTime Cmp.Spec Resource.Impl Resource.Pull Cmp.CollEquiv Cmp.CollLossy.
 Open Scope Z_scope.
 
 Inductive vcfg := VFloat (fraction margin : Q) | VTime (d : Z) | VDur (d : Z) | VDurP (p : Q).
@@ -31,7 +31,10 @@ Definition b4_eqb (a b : b4) : bool :=
 Inductive obs :=
 | OEq (e : ecfg) (v : b4)
 (* cmp.And / cmp.Or over Equal(...) comparers: the components' own verdicts and the combination's *)
-| OComb (is_or : bool) (es : list ecfg) (comps : list b4) (v : b4).
+| OComb (is_or : bool) (es : list ecfg) (comps : list b4) (v : b4)
+(* cmp.Equal(t) for a combinator TREE t: ValueAnd / ValueOr nested to any depth over leaf comparers
+   (Logic.v ctree), e.g. ValueOr(TimeValueWithin(d), ValueAnd(FloatValueApprox(..), DurationValueWithin(..))) *)
+| OTree (t : ctree vcfg) (v : b4).
 
 (* one operation on a collection: [(id, Some v)] = Add (absent id) or Update (present id) storing v,
    [(id, None)] = Delete of a present id *)
@@ -53,6 +56,13 @@ Inductive c16case :=
 | KStreamM (paths : list string) (e : ecfg) (seed : option cval) (writes : list cval) (emitted : list cval)
 | KCollM (paths : list string) (e : ecfg) (uo : bool) (thr : option Q) (init : list (string * cval)) (ops : list collop)
          (emitted : list (string * option cval * option cval))
+(* a resource.Collection with an equivalence pulled WITHOUT backpressure (seeded or updates-only, optional
+   include) by a reader that is BEHIND during each phase: the first write of a phase (a plug: an id of its
+   own, never suppressed) parks the subscription's loop on its send, the other writes pile up in
+   mergeCollectionExcess (REMOVE + ADD -> REPLACE, ...), the last one is a barrier (an id of its own) up to
+   which the reader then drains.  [emitted]: every change delivered, seeds, plugs and barriers included *)
+| KCollL (e : ecfg) (uo : bool) (thr : option Q) (init : list (string * cval)) (phases : list (list collop))
+         (emitted : list (string * option cval * option cval))
 (* [g]: the guard as the generator computed it (so that the guard-pass rate it reports is the judge's) *)
 | KG (g : bool) (c : c16case).
 
@@ -69,6 +79,8 @@ Definition model_e (e : ecfg) : mcmp :=
   | EAnd vs => cmp_equal (map model_v vs)
   | EOr vs => cmp_equal [value_or (map model_v vs)]
   end.
+Definition model_t (t : ctree vcfg) : vcmp := tree_cmp model_v t.
+Definition model_tree (t : ctree vcfg) : mcmp := cmp_equal [model_t t].
 Definition four (f : mcmp) (x y : option cval) : b4 := (f x y, f y x, f x x, f y y).
 
 Definition strip_opt (x : option cval) : option cval := option_map strip x.
@@ -136,6 +148,12 @@ Definition coll_full_model (e : ecfg) (uo : bool) (thr : option Q) (init : list 
   : list (string * option cval * option cval) :=
   map triple_of (pull_collection_held id_filter (Some (model_e e)) (coll_state init) (coll_ro uo thr) (events_of init ops)).
 
+(* without backpressure: the merge stage (Excess/MergeExcess.v m_run under the forced schedule, Cmp/CollLossy.v)
+   composed with the held-map loop *)
+Definition coll_lossy_model (e : ecfg) (uo : bool) (thr : option Q) (init : list (string * cval)) (phases : list (list collop))
+  : list (string * option cval * option cval) :=
+  map triple_of (pull_collection_held id_filter (Some (model_e e)) (coll_state init) (coll_ro uo thr) (merged_events init phases)).
+
 (* masks.ResponseFilter.FilterClone for a mask of top-level field names, on messages without unknown
    fields: the listed populated fields are kept; an empty mask resets the message *)
 Definition path_filter (paths : list string) (m : cval) : cval :=
@@ -166,6 +184,7 @@ Definition agrees_obs (x y : option cval) (o : obs) : bool :=
   | OComb is_or es comps v =>
       list_eqb b4_eqb comps (map (fun e => four (model_e e) x y) es)
       && b4_eqb v (four ((if is_or then msg_or else msg_and) (map model_e es)) x y)
+  | OTree t v => b4_eqb v (four (model_tree t) x y)
   end.
 
 Definition bb_eqb (a b : bool * bool) : bool := Bool.eqb (fst a) (fst b) && Bool.eqb (snd a) (snd b).
@@ -191,6 +210,7 @@ Definition agrees_core (c : c16case) : bool :=
   | KColl e uo thr init ops emitted => list_eqb triple_eqb emitted (coll_full_model e uo thr init ops)
   | KStreamM paths e seed writes emitted => cvals_eqb emitted (pull_model_m paths e seed writes)
   | KCollM paths e uo thr init ops emitted => list_eqb triple_eqb emitted (coll_full_model_m paths e uo thr init ops)
+  | KCollL e uo thr init phases emitted => list_eqb triple_eqb emitted (coll_lossy_model e uo thr init phases)
   | KG _ _ => false
   end.
 
@@ -207,6 +227,16 @@ Definition ideal_e (e : ecfg) : option cval -> option cval -> bool :=
   | EAnd vs => spec_top ignored (leaf_and (map ideal_v vs))
   | EOr vs => spec_top ignored (leaf_or (map ideal_v vs))
   end.
+
+(* a tree's reference semantics: the ideal leaves combined by the reference conjunction / disjunction
+   of Spec.v (a member that does not apply to the pair of values at hand takes no part) *)
+Fixpoint ideal_t (t : ctree vcfg) : cval -> cval -> option bool :=
+  match t with
+  | TLeaf v => ideal_v v
+  | TAnd ts => leaf_and (map ideal_t ts)
+  | TOr ts => leaf_or (map ideal_t ts)
+  end.
+Definition ideal_tree (t : ctree vcfg) : option cval -> option cval -> bool := spec_top ignored (ideal_t t).
 
 Definition is_durp (c : vcfg) : bool := match c with VDurP _ => true | _ => false end.
 Definition cfg_vs (e : ecfg) : list vcfg := match e with EAnd vs | EOr vs => vs end.
@@ -234,6 +264,9 @@ Definition ok_obs (x y : option cval) (ps : bool * bool) (o : obs) : bool :=
   | OEq e v => ok_eq x y ps e v
   | OComb is_or es comps v =>
       (List.length es =? List.length comps)%nat && b4_eqb v (fold4 is_or comps)
+  | OTree t v =>
+      let '(xy, yx, xx, yy) := v in
+      Bool.eqb xy yx && xx && yy && Bool.eqb xy (ideal_tree t x y) && Bool.eqb yx (ideal_tree t y x)
   end.
 
 (* delivered iff not equivalent (ideally) to the value the subscriber holds *)
@@ -273,6 +306,40 @@ Definition seen_init (thr : option Q) (init : list (string * cval)) : list (stri
   filter (fun p : string * cval => match seen_val thr (fst p) (Some (snd p)) with Some _ => true | None => false end) init.
 Definition pair_eqb (a b : string * option cval) : bool := String.eqb (fst a) (fst b) && ocval_eqb (snd a) (snd b).
 
+(* ---- without backpressure: the oracle does not predict the merges ----
+   (1) nothing is delivered whose new value is equivalent (ideally) to what the subscriber holds for that
+       id -- the fold of what it was delivered so far, starting from the collection as it was seen at
+       subscription;
+   (2) at the end of every phase (the barrier delivered: the reader has caught up) what the subscriber
+       holds is, id by id, equivalent to what the collection shows through the include filter. *)
+Definition view_apply (view : list (string * cval)) (d : string * option cval) : list (string * cval) :=
+  match snd d with Some v => aset (fst d) v view | None => adel (fst d) view end.
+Fixpoint deliveries_ok (e : ecfg) (view : list (string * cval)) (ds : list (string * option cval)) : bool :=
+  match ds with
+  | [] => true
+  | d :: r => negb (ideal_e e (alookup (fst d) view) (snd d)) && deliveries_ok e (view_apply view d) r
+  end.
+Definition apply_op (cur : list (string * cval)) (o : collop) : list (string * cval) :=
+  match snd o with Some v => aset (fst o) v cur | None => adel (fst o) cur end.
+(* the deliveries up to and including the first one for [id]; the rest *)
+Fixpoint split_at_id (id : string) (ds : list (string * option cval)) : list (string * option cval) * list (string * option cval) :=
+  match ds with
+  | [] => ([], [])
+  | d :: r => if String.eqb (fst d) id then ([d], r) else let '(a, b) := split_at_id id r in (d :: a, b)
+  end.
+Definition caught_up (e : ecfg) (thr : option Q) (ids : list string) (view cur : list (string * cval)) : bool :=
+  forallb (fun id => ideal_e e (alookup id view) (seen_val thr id (alookup id cur))) ids.
+Fixpoint lossy_phases_ok (e : ecfg) (thr : option Q) (ids : list string) (view cur : list (string * cval))
+         (phases : list (list collop)) (ds : list (string * option cval)) : bool :=
+  match phases with
+  | [] => match ds with [] => true | _ => false end
+  | ph :: r =>
+      let cur' := fold_left apply_op ph cur in
+      let '(mine, rest) := split_at_id (fst (last ph (""%string, None))) ds in
+      let view' := fold_left view_apply mine view in
+      deliveries_ok e view mine && caught_up e thr ids view' cur' && lossy_phases_ok e thr ids view' cur' r rest
+  end.
+
 Definition ok_core (c : c16case) : bool :=
   match c with
   | KPair x y pr ps os => forallb (ok_obs x y ps) os
@@ -292,6 +359,12 @@ Definition ok_core (c : c16case) : bool :=
       list_eqb pair_eqb (map (fun t : string * option cval * option cval => (fst (fst t), snd t)) emitted)
                ((if uo then [] else map (fun p : string * cval => (fst p, Some (snd p))) view)
                 ++ ideal_coll_m f e thr view ops)
+  | KCollL e uo thr init phases emitted =>
+      let view0 := seen_init thr init in
+      let seeds := if uo then [] else map (fun p : string * cval => (fst p, Some (snd p))) view0 in
+      let ds := map (fun t : string * option cval * option cval => (fst (fst t), snd t)) emitted in
+      list_eqb pair_eqb (firstn (List.length seeds) ds) seeds
+      && lossy_phases_ok e thr (map fst init ++ map fst (List.concat phases)) view0 init phases (skipn (List.length seeds) ds)
   | KG _ _ => false
   end.
 
@@ -325,7 +398,11 @@ Definition vcfg_guard (c : vcfg) : bool :=
   end.
 Definition ecfg_guard (e : ecfg) : bool := forallb vcfg_guard (cfg_vs e).
 Definition obs_guard (o : obs) : bool :=
-  match o with OEq e _ => ecfg_guard e | OComb _ es _ _ => forallb ecfg_guard es end.
+  match o with
+  | OEq e _ => ecfg_guard e
+  | OComb _ es _ _ => forallb ecfg_guard es
+  | OTree t _ => ecfg_guard (EAnd (tree_leaves t))
+  end.
 
 Definition guard_core (c : c16case) : bool :=
   match c with
@@ -340,6 +417,10 @@ Definition guard_core (c : c16case) : bool :=
   | KCollM _ e _ thr init ops _ =>
       forallb (fun p : string * cval => opt_guard (Some (snd p))) init
       && forallb (fun o : collop => opt_guard (snd o)) ops && ecfg_guard e
+      && match thr with Some t => small_dyadic t | None => true end
+  | KCollL e _ thr init phases _ =>
+      forallb (fun p : string * cval => opt_guard (Some (snd p))) init
+      && forallb (fun o : collop => opt_guard (snd o)) (List.concat phases) && ecfg_guard e
       && match thr with Some t => small_dyadic t | None => true end
   | KG _ _ => false
   end.
@@ -368,6 +449,10 @@ Definition obs_class (x y : option cval) (o : obs) : option Z :=
       else if existsb is_dur (cfg_vs e) && (opt_sat x || opt_sat y) then Some 2
       else None
   | OComb _ _ _ _ => None
+  | OTree t _ =>
+      if existsb is_durp (tree_leaves t) then Some 1
+      else if existsb is_dur (tree_leaves t) && (opt_sat x || opt_sat y) then Some 2
+      else None
   end.
 
 Definition class_core (c : c16case) : option Z :=
